@@ -68,7 +68,7 @@ def run_family(c, prop, family, nquick, nrand=(0, 0)):
         # multi-operation sequences (a scenario whose top-level body has more than two ops)
         rnd = random.Random(c.seed)
         def is_core(x):
-            return x["top"]["op"] == "pc" or len(x["top"]["body"]) <= 2 or any(b["op"] == "call" and b["body"] for b in x["top"]["body"])
+            return x["top"]["op"] == "pc" or len(x["top"]["body"]) <= 2 or any(b["op"] in ("call", "create") and (b["body"] or b.get("rt")) for b in x["top"]["body"])
         core = [x for x in scenarios if is_core(x)]
         rest = [x for x in scenarios if not is_core(x)]
         scenarios = core + rnd.sample(rest, max(0, min(len(rest), nquick - len(core))))
